@@ -14,6 +14,9 @@ Streams (Model/Derive.lean):
     value), concurrent Map (`Kind.concMap`: fresh `[guard]`, then `append` of the parent's list — `cml_spec`).
   * `C17_witness_insert_in_place` : prepending the guard with `slices.Insert(parent's slice, 0, guard)` instead writes
                                     the parent's array when len < cap (the parent loses its last element).
+  * `C17_materialise_overlapping` : ANY multiset of stream values of the forest materialised at overlapping times, in
+                                    ANY interleaving of their open / close sequences (`Shuffle`; `shuffle_perm`): the
+                                    ids opened and the ids closed are, as multisets, the union of the streams' own paths.
 Custom-metadata maps: `Props/C17Maps.lean`.
 Queries (Model/RowAlias.lean):
   * `C17_query_no_mutation`       : running any row program leaves every pre-existing array — hence every cell seen
@@ -21,6 +24,10 @@ Queries (Model/RowAlias.lean):
   * `C17_query_values`            : every register of every row program holds its value-level specification.
   * `C17_capacity_independent`    : same caller values + same program shape ⇒ same results, for all capacities,
                                     layouts and growth-oracle choices.
+  * `C17_stage_sharing_irrelevant`: operations run through a pool of shared stage objects = private copies of them
+                                    (stages are values in the model; the correspondence check shares the Go objects).
+  * `C17_query_prefix_stable`     : whatever is executed later, registers already filled keep their values.
+  * `C17_same_pipeline_twice`     : the same source slice + stage list run as two tasks in any interleaving: equal rows.
   * `C17_interleaved`             : any interleaving (schedule) of any number of chain pipelines: every pipeline's
                                     final result is what it would deliver alone; caller arrays untouched.
   * `C17_selectMeta_available`    : what SelectFieldsFilter hands to PrepareField is `meta ++ selected so far`.
@@ -218,6 +225,75 @@ theorem C17_materialise (st : DState) (hwf : DWF st) (ops : List DOp) (i : Nat) 
   rw [hs, h] at this
   exact ⟨_, this, rfl⟩
 
+/-! ### overlapping materialisation (both inputs of `ZipN` / a join, or one stream consumed inside another's consumer) -/
+
+/-- `Shuffle ls tr`: the trace `tr` is an interleaving of the lists `ls` — at every step the next event of ONE of the
+    lists happens; the order inside every list is kept.  (`ls` = the open sequences, or the close sequences, of the
+    materialisations that overlap; any nesting / alternation of them is such an interleaving.) -/
+inductive Shuffle {α : Type} : List (List α) → List α → Prop
+  | done {ls : List (List α)} : (∀ l ∈ ls, l = []) → Shuffle ls []
+  | step {ls : List (List α)} {k : Nat} {x : α} {rest tr : List α} :
+      ls[k]? = some (x :: rest) → Shuffle (ls.set k rest) tr → Shuffle ls (x :: tr)
+
+theorem flatten_set_perm {α : Type} (x : α) (rest : List α) :
+    ∀ (ls : List (List α)) (k : Nat), ls[k]? = some (x :: rest) →
+      ls.flatten.Perm (x :: (ls.set k rest).flatten) := by
+  intro ls
+  induction ls with
+  | nil => intro k h; simp at h
+  | cons l ls ih =>
+    intro k h
+    cases k with
+    | zero =>
+      simp only [List.getElem?_cons_zero, Option.some.injEq] at h
+      subst h
+      simp
+    | succ k =>
+      simp only [List.getElem?_cons_succ] at h
+      have := ih k h
+      simp only [List.flatten_cons, List.set_cons_succ]
+      exact (List.Perm.append_left l this).trans List.perm_middle
+
+/-- Every interleaving of some lists is a permutation of their concatenation. -/
+theorem shuffle_perm {α : Type} {ls : List (List α)} {tr : List α} (h : Shuffle ls tr) : tr.Perm ls.flatten := by
+  induction h with
+  | done hnil => rw [List.flatten_eq_nil_iff.mpr hnil]
+  | step hk _ ih => exact (List.Perm.cons _ ih).trans (flatten_set_perm _ _ _ _ hk).symm
+
+/-- **C17, overlapping materialisation.** Take ANY list `is` of stream values of the forest (any multiset: the same
+    value may occur several times, parents together with their children, siblings) and materialise them at
+    overlapping times.  The model's `materialiseMany` opens and closes the concatenation of the streams' own paths
+    (`ps` = their list-level specifications), and EVERY interleaving of the individual open sequences (close
+    sequences) — any nesting, any alternation — is a permutation of it: as multisets the ids opened and the ids
+    closed are exactly the union of the paths; in particular every id is closed as often as it was opened. -/
+theorem C17_materialise_overlapping (st : DState) (hwf : DWF st) (ops : List DOp) (is : List Nat) (ss : List StreamV)
+    (hs : is.map (fun i => (runD st ops).streams[i]?) = ss.map some) :
+    ∃ ps : List (List Nat × List DataOp),
+      is.map (fun i => (specRun (obsOf st) ops)[i]?) = ps.map some ∧
+      materialiseMany (runD st ops).heap ss = (ps.flatMap (·.1), ps.flatMap (·.1)) ∧
+      ∀ opened closed : List Nat,
+        Shuffle (ss.map (fun s => (materialise (runD st ops).heap s).1)) opened →
+        Shuffle (ss.map (fun s => (materialise (runD st ops).heap s).2)) closed →
+        opened.Perm (ps.flatMap (·.1)) ∧ closed.Perm (ps.flatMap (·.1)) := by
+  have h := C17_stream_immutable st hwf ops
+  refine ⟨ss.map (fun s => (view (runD st ops).heap s.lc, s.prov)), ?_, ?_, ?_⟩
+  · rw [← h]
+    have : (fun i : Nat => (obsOf (runD st ops))[i]?) =
+        (fun o : Option StreamV => o.map (fun s => (view (runD st ops).heap s.lc, s.prov))) ∘
+          (fun i : Nat => (runD st ops).streams[i]?) := by
+      funext i; simp [obsOf_getElem?]
+    rw [this, ← List.map_map, hs]
+    simp [List.map_map, Function.comp_def]
+  · simp [materialiseMany, materialise, List.flatMap_map]
+  · intro opened closed ho hc
+    have e : ∀ (f : StreamV → List Nat), (∀ s, f s = view (runD st ops).heap s.lc) →
+        (ss.map f).flatten = (ss.map (fun s => (view (runD st ops).heap s.lc, s.prov))).flatMap (·.1) := by
+      intro f hf
+      have : f = fun s => view (runD st ops).heap s.lc := funext hf
+      subst this
+      simp [List.flatMap_def, Function.comp_def]
+    exact ⟨e _ (fun _ => rfl) ▸ shuffle_perm ho, e _ (fun _ => rfl) ▸ shuffle_perm hc⟩
+
 /-! ### non-vacuity and the pre-repair witness -/
 
 /-- Root with lifecycle [0] and one spare cell; chain 0→1→2, then two siblings 3,4 under 2 with a growth oracle
@@ -234,6 +310,16 @@ example : DWF exState := by decide
 example : (obsOf (runD exState exOps)).map (·.1) =
     [[0], [0, 1], [0, 1, 2], [0, 1, 2, 3], [0, 1, 2, 4], [0, 1, 2], [0, 1, 2, 6], [0, 7],
      [100, 0, 1, 2], [0, 1, 2, 9], [100, 0, 1, 2, 10], [101, 0, 1, 2]] := by decide
+
+/-- overlapping materialisation of a lock child (stream 6) twice, its Filter parent (5), their ancestor (2) and a
+    sibling (3): the union of the paths, lock id 6 twice; a nested and an alternating trace are both interleavings -/
+example : [2, 5, 6, 6, 3].map (fun i => (runD exState exOps).streams[i]?) =
+    ([2, 5, 6, 6, 3].filterMap (fun i => (runD exState exOps).streams[i]?)).map some := by decide
+example : materialiseMany (runD exState exOps).heap ([2, 5, 6, 6, 3].filterMap (fun i => (runD exState exOps).streams[i]?)) =
+    ([0, 1, 2, 0, 1, 2, 0, 1, 2, 6, 0, 1, 2, 6, 0, 1, 2, 3], [0, 1, 2, 0, 1, 2, 0, 1, 2, 6, 0, 1, 2, 6, 0, 1, 2, 3]) := by decide
+example : Shuffle [[0, 1, 6], [0, 1, 6]] [0, 0, 1, 1, 6, 6] :=
+  .step (k := 0) rfl (.step (k := 1) rfl (.step (k := 1) rfl (.step (k := 0) rfl (.step (k := 0) rfl (.step (k := 1) rfl
+    (.done (by decide)))))))
 
 /-- **Witness (D16, pre-repair code).** Parent with one spare cell, two siblings: after the second derivation the
     FIRST sibling opens the second sibling's lifecycle (5 instead of 4) — immutability fails exactly when len < cap. -/
@@ -619,6 +705,48 @@ theorem C17_capacity_independent (st1 st2 : RState) (h1 : RWF st1) (h2 : RWF st2
     (runR st1 ops1).vals = (runR st2 ops2).vals := by
   rw [C17_query_values st1 h1, C17_query_values st2 h2, ← specRunR_shape ops1, ← specRunR_shape ops2, hs, hv]
 
+/-! ### stage objects: sharing and re-execution -/
+
+/-- A program whose operations live in a POOL of stage objects and are named by index: the same pool entry may be
+    used any number of times (the same filter in two pipelines, the same pipeline executed again, both sides of a
+    join).  Running an entry does not touch the pool — it is not part of the state. -/
+def runPool (st : RState) (pool : List ROp) (is : List Nat) : RState :=
+  is.foldl (fun s i => match pool[i]? with | some op => stepR s op | none => s) st
+
+/-- **C17, shared stage objects.** Running operations through shared pool entries is the same as running private
+    copies of them: whether two occurrences of a stage are "the same object" cannot be observed.  (Trivial here —
+    stages are values; the library's stage objects hold maps and slices, and the correspondence check shares one Go
+    object between all occurrences so that state kept in it shows as a disagreement with this theorem's model.) -/
+theorem C17_stage_sharing_irrelevant (pool : List ROp) (is : List Nat) : ∀ st : RState,
+    runPool st pool is = runR st (is.filterMap (pool[·]?)) := by
+  induction is with
+  | nil => intro st; rfl
+  | cons i is ih =>
+    intro st
+    cases hp : pool[i]? with
+    | none => simpa [runPool, runR, hp] using ih st
+    | some op => simpa [runPool, runR, hp] using ih (stepR st op)
+
+theorem specRunR_prefix (ops : List ROp) : ∀ vals, ∃ e, specRunR vals ops = vals ++ e := by
+  induction ops with
+  | nil => intro vals; exact ⟨[], by simp [specRunR]⟩
+  | cons op ops ih =>
+    intro vals
+    obtain ⟨e, he⟩ := ih (vals ++ [specStepR vals op])
+    refine ⟨specStepR vals op :: e, ?_⟩
+    simp only [specRunR, List.foldl_cons] at he ⊢
+    rw [he, List.append_assoc]; rfl
+
+/-- **C17, later executions never change earlier results.** Whatever runs after `ops1` (another pipeline, the same
+    pipeline again, a join over its results), every register filled by `ops1` — every row and metadata slice already
+    delivered — still reads the same. -/
+theorem C17_query_prefix_stable (st : RState) (hwf : RWF st) (ops1 ops2 : List ROp) :
+    ∃ e, (runR st (ops1 ++ ops2)).vals = (runR st ops1).vals ++ e := by
+  have h1 := runR_spec ops1 st hwf
+  have : runR st (ops1 ++ ops2) = runR (runR st ops1) ops2 := by simp [runR]
+  rw [this, C17_query_values _ h1.1 ops2]
+  exact specRunR_prefix ops2 _
+
 /-! ### interleaved chain pipelines -/
 
 def TWF (h : Heap Val) (ts : List Task) : Prop := ∀ t ∈ ts, t.cur.WF h
@@ -704,6 +832,16 @@ theorem C17_interleaved_finished (h : Heap Val) (ts : List Task) (hw : TWF h ts)
   simp only [List.getElem?_map, hi, hi', Option.map_some, Option.some.injEq] at this
   simpa [finalVal, hdone, specChain] using this
 
+/-- **C17, the same pipeline twice.** Two tasks with the same source slice and the same stage list (one pipeline
+    executed twice, or one filter chain used by two pipelines), advanced in any interleaving with any other tasks:
+    once both have finished they hold equal rows. -/
+theorem C17_same_pipeline_twice (h : Heap Val) (ts : List Task) (hw : TWF h ts) (sched : List Nat)
+    (i j : Nat) (t ti tj : Task) (hi : ts[i]? = some t) (hj : ts[j]? = some t)
+    (hi' : (runSched h ts sched).2[i]? = some ti) (hj' : (runSched h ts sched).2[j]? = some tj)
+    (di : ti.todo = []) (dj : tj.todo = []) :
+    view (runSched h ts sched).1 ti.cur = view (runSched h ts sched).1 tj.cur := by
+  rw [C17_interleaved_finished h ts hw sched i t ti hi hi' di, C17_interleaved_finished h ts hw sched j t tj hj hj' dj]
+
 /-! ### non-vacuity and the pre-repair witness -/
 
 /-- Caller data: one backing array holding two rows carved without a capacity limit (row 0's spare capacity IS
@@ -721,6 +859,13 @@ def exProg : List ROp :=
    .singleRow 2 (.selGt (.ref 0) (.ref 1) (.cast (.ref 0)) (.ref 1)), .copyRow 0,
    .combineRow 0 1 [.bin .sub (.ref 2) (.ref 0), .bin (.rate 4) (.ref 3) (.ref 1)], .replaceRow 3 0 (.const (.int 104)),
    .appendRow 12 (.ref 1) 0]
+
+/-- a pool whose entry 1 (an append of a reduce-over-named-columns value) is used three times, entry 0 twice -/
+def exPool : List ROp :=
+  [.singleRow 0 (.redAll .max), .appendRow 0 (.red .sum [0]) 1, .selectRow 0 [.red .avg [0, 1], .ref 0, .redAll .min] [0, 2]]
+example : (runPool exR exPool [1, 0, 1, 2, 7, 1, 0]).vals.drop 4 =
+    [[.int 1, .int 2, .int 1], [.int 2], [.int 1, .int 2, .int 1], [.int 1, .int 1, .int 1],
+     [.int 1, .int 2, .int 1], [.int 2]] := by decide
 
 example : RWF exR := by decide
 example : (runR exR exProg).vals.drop 4 =
